@@ -361,11 +361,14 @@ theorem apiClose_bad (w : σ) (h : Handle) : Rep (apiClose W w h) := by
       · exact Int.le_trans (imin_le_right _ _) (Int.le_trans (imin_le_left _ _) (hr1 hb))
     · exact Int.le_trans (imin_le_left _ _) (hr2 hb)
 
-theorem apiFree_bad (w : σ) (h : Handle) : Rep (apiFree W w h) := by
+/-- `archive_write_free` on a handle that has not failed before is `archive_write_close` and
+reports a callback failure like it.  On a handle that is already FATAL the filters are closed
+too, but the status of that is deliberately dropped (`(void)__archive_write_filters_close(a)`):
+the failure was reported by the call that made the handle fail. -/
+theorem apiFree_bad (w : σ) (h : Handle) (hne : h.state ≠ .fatal) : Rep (apiFree W w h) := by
   unfold apiFree
-  apply ite_prop Rep
-  · intro _; exact apiClose_bad W w h
-  · intro _; exact rep_nil _ _ _
+  rw [if_pos hne]
+  exact apiClose_bad W w h
 
 end
 end LA.WC
